@@ -21,6 +21,7 @@ import (
 	"cuelang.org/go/cue/build"
 	"cuelang.org/go/cue/errors"
 	"cuelang.org/go/internal/core/adt"
+	"cuelang.org/go/internal/simhook"
 )
 
 type PackageFunc func(ctx adt.Runtime) (*adt.Vertex, errors.Error)
@@ -91,6 +92,7 @@ type index struct {
 
 func (i *index) getNextUniqueID() uint64 {
 	// TODO: use atomic increment instead.
+	simhook.Yield("runtime.getNextUniqueID")
 	i.lock.Lock()
 	i.nextUniqueID++
 	x := i.nextUniqueID
@@ -107,6 +109,7 @@ func newIndex() *index {
 }
 
 func (r *Runtime) AddInst(key *adt.Vertex, p *build.Instance) {
+	simhook.Yield("runtime.AddInst")
 	r.index.lock.Lock()
 	defer r.index.lock.Unlock()
 
@@ -124,6 +127,7 @@ func (r *Runtime) GetInstanceFromNode(key *adt.Vertex) *build.Instance {
 	if t := key.ImportTemplate(); t != nil {
 		key = t
 	}
+	simhook.Yield("runtime.GetInstanceFromNode")
 	r.index.lock.RLock()
 	defer r.index.lock.RUnlock()
 
@@ -147,11 +151,15 @@ func (r *Runtime) LoadBuiltin(importPath string) *adt.Vertex {
 	if v := r.LoadInstance(inst); v != nil {
 		return v
 	}
+	simhook.Yield("runtime.LoadBuiltin:before-lock")
 	x.lock.Lock()
 	defer x.lock.Unlock()
+	simhook.NoYield(1)
+	defer simhook.NoYield(-1)
 
 	if v := x.importsByBuild[inst]; v != nil {
 		// Another goroutine got there first.
+		simhook.Probe("runtime.LoadBuiltin:another-goroutine-got-there-first")
 		return v
 	}
 	v, err := x.builtins.instances[inst](r)
@@ -166,6 +174,7 @@ func (r *Runtime) LoadBuiltin(importPath string) *adt.Vertex {
 }
 
 func (r *Runtime) LoadInstance(inst *build.Instance) *adt.Vertex {
+	simhook.Yield("runtime.LoadInstance")
 	r.index.lock.RLock()
 	defer r.index.lock.RUnlock()
 	return r.index.importsByBuild[inst]
